@@ -404,3 +404,200 @@ def c13(tier, rng, fam='C13'):
         out.append(scn(seq, '%d: ' % L + ' '.join('%s/%d' % s for s in seq), stats=rng.choice([0, 1]),
                        order=rng.choice(['us', 'su'])))
     return out
+
+
+# ------------------------------------------------------------------ C05 -----
+
+def multiset_perms(counts):
+    """all interleavings of k sequences with the given lengths, as lists of owner indexes"""
+    total = sum(counts)
+
+    def rec(rem, acc):
+        if len(acc) == total:
+            yield list(acc)
+            return
+        for i, r in enumerate(rem):
+            if r > 0:
+                rem[i] -= 1
+                acc.append(i)
+                yield from rec(rem, acc)
+                acc.pop()
+                rem[i] += 1
+    yield from rec(list(counts), [])
+
+
+def c05(tier, rng, fam='C05'):
+    out = []
+    # (a) raw server answering k outstanding calls with every interleaving of their response envelopes
+    shapes = [((3, 3), ('bidi', 'bidi')), ((3, 1), ('bidi', 'unary')), ((1, 1, 1), ('unary', 'unary', 'unary')),
+              ((2, 2, 2), ('ss', 'bidi', 'cs'))]
+    if tier != 'quick':
+        shapes += [((3, 3, 3), ('bidi', 'ss', 'bidi')), ((2, 2, 2, 2), ('bidi', 'ss', 'cs', 'bidi')), ((3, 2, 1), ('bidi', 'ss', 'unary'))]
+    for counts, kinds in shapes:
+        perms = list(multiset_perms(counts))
+        if tier == 'quick' and len(perms) > 120:
+            perms = rng.sample(perms, 120)
+        for pi, perm in enumerate(perms):
+            b = B(fam, 'raw server, calls %s, interleaving %s' % ('/'.join(kinds), ''.join(map(str, perm))), rawsrv=True, ser=True)
+            nrecv = {}
+            for i, kind in enumerate(kinds):
+                c = i + 1
+                if kind == 'unary':
+                    b.step('ucall', c=c, pay='q%d' % c)
+                else:
+                    b.step('sopen', c=c, kind=kind)
+                    b.step('send', c=c, pay='x%d' % c)
+                    b.step('recv', c=c, n=counts[i])
+                    b.step('hdr', c=c)
+            pos = [0] * len(kinds)
+            for owner in perm:
+                c = owner + 1
+                kind = kinds[owner]
+                j = pos[owner]
+                pos[owner] += 1
+                last = (j == counts[owner] - 1)
+                if kind == 'unary':
+                    e = env(c, m=METH['unary'], b='rep%d' % c, t=[])
+                elif last:
+                    e = env(c, m=METH[kind], st=(0, 'OK'), t=[['tr', 'c%d' % c]])
+                else:
+                    e = env(c, m=METH[kind], b='c%d.m%d' % (c, j), md=[['hd', 'c%d' % c]] if j == 0 else None)
+                b.step('inj', dir='s2c', env=e)
+            for i, kind in enumerate(kinds):
+                if kind != 'unary':
+                    b.step('trl', c=i + 1)
+            out.append(b.q().done())
+    # (b) raw client interleaving the request envelopes of k streams into a real server (echo handlers)
+    sshapes = [((3, 3), ('bidi', 'bidi')), ((3, 2), ('bidi', 'unary2'))]
+    if tier != 'quick':
+        sshapes += [((3, 3, 3), ('bidi', 'bidi', 'bidi')), ((4, 3), ('bidi', 'bidi'))]
+    for counts, kinds in sshapes:
+        perms = list(multiset_perms(counts))
+        if tier == 'quick' and len(perms) > 60:
+            perms = rng.sample(perms, 60)
+        for perm in perms:
+            b = B(fam, 'raw client, streams %s, interleaving %s' % ('/'.join(kinds), ''.join(map(str, perm))), rawcli=True, ser=True)
+            pos = [0] * len(kinds)
+            for owner in perm:
+                i = owner + 1
+                j = pos[owner]
+                pos[owner] += 1
+                n = counts[owner]
+                if kinds[owner] == 'unary2':   # two independent unary requests
+                    e = env(10 + j, m=METH['unary'], b='u%d' % j, src='cliX', dst='srv', c=200 + j)
+                elif j == 0:
+                    e = env(i, m=METH['bidi'], src='cliX', dst='srv', c=100 + i)
+                elif j == n - 1:
+                    e = env(i, m=METH['bidi'], st=(0, 'OK'), t=[], src='cliX', dst='srv')
+                else:
+                    e = env(i, m=METH['bidi'], b='s%d.m%d' % (i, j), src='cliX', dst='srv')
+                b.step('inj', dir='c2s', env=e)
+            out.append(b.q().done())
+    # (c) many goroutines starting calls at once: ids pairwise distinct, replies not mixed up
+    for k, reps in ([(16, 2), (64, 2)] if tier == 'quick' else [(8, 4), (16, 4), (32, 4), (64, 8)]):
+        for r_ in range(reps):
+            b = B(fam, '%d calls started at once #%d' % (k, r_), ser=bool(r_ % 2))
+            for c in range(1, k + 1):
+                if c % 3:
+                    b.step('ucall', c=c, pay='q%d' % c, hp=[ret(pay='p%d' % c)], nw=True)
+                else:
+                    b.step('sopen', c=c, kind='bidi', hp=[dict(o='echo')], nw=True)
+                    b.step('send', c=c, pay='s%d' % c, nw=True)
+                    b.step('close', c=c, nw=True)
+                    b.step('recv', c=c, n=2, nw=True)
+            b.step('wait')
+            out.append(b.q().done())
+    return out
+
+
+# ------------------------------------------------------------------ C14 -----
+
+def c14(tier, rng, fam='C14'):
+    """moderate histories with every outcome, stepped through the full specification;
+    a census after every RPC"""
+    out = []
+    nscn, nrpc = (6, 40) if tier == 'quick' else (40, 150)
+    for si in range(nscn):
+        b = B(fam, 'history #%d of %d RPCs with all outcomes' % (si, nrpc), ser=bool(si % 2))
+        for c in range(1, nrpc + 1):
+            kind = rng.choice(['unary', 'unary', 'bidi', 'cs', 'ss'])
+            outc = rng.choice(['ok', 'ok', 'herr', 'cancel', 'deadline', 'earlyret', 'failopen'])
+            if outc == 'failopen':
+                b.step('fault', what='cwrite')
+                if kind == 'unary':
+                    b.step('ucall', c=c, pay='q%d' % c, hp=[ret()])
+                else:
+                    b.step('sopen', c=c, kind=kind, hp=[dict(o='echo')])
+                b.step('unfault', what='cwrite')
+            elif kind == 'unary':
+                if outc in ('herr', 'earlyret'):
+                    b.step('ucall', c=c, pay='q%d' % c, hp=[ret(code=5, msg='no')])
+                elif outc == 'cancel':
+                    b.step('ucall', c=c, pay='q%d' % c, hp=[])
+                    b.step('cancel', c=c)
+                    b.step('hop', c=c, h=ret(pay='late'))
+                elif outc == 'deadline':
+                    b.step('ucall', c=c, pay='q%d' % c, to=20, hp=[dict(o='ctxwait'), ret(code=4, msg='dl')])
+                    b.step('adv', ms=21)
+                else:
+                    b.step('ucall', c=c, pay='q%d' % c, hp=[ret(pay='p%d' % c)])
+            else:
+                n = rng.choice([0, 1, 2])
+                if outc == 'ok':
+                    stream_scn(fam, '', kind, rng.choice(['sendall', 'pingpong']),
+                               'echo' if kind == 'bidi' else 'afterEOF', n, rng.choice([0, 1, 2]), c=c, b=b)
+                elif outc == 'herr':
+                    b.step('sopen', c=c, kind=kind, hp=[dict(o='recv'), ret(code=9, msg='failed')])
+                    b.step('send', c=c, pay='x').step('close', c=c).step('recv', c=c, n=2)
+                elif outc == 'earlyret':
+                    b.step('sopen', c=c, kind=kind, hp=[ret()])
+                    b.step('send', c=c, pay='x').step('send', c=c, pay='y').step('close', c=c).step('recv', c=c, n=2)
+                elif outc == 'cancel':
+                    b.step('sopen', c=c, kind=kind, hp=[dict(o='ctxwait'), ret(code=1, msg='gone')])
+                    b.step('send', c=c, pay='x')
+                    b.step('cancel', c=c)
+                    b.step('recv', c=c)
+                else:
+                    b.step('sopen', c=c, kind=kind, to=20, hp=[dict(o='ctxwait'), ret(code=4, msg='dl')])
+                    b.step('adv', ms=21)
+                    b.step('recv', c=c)
+            b.q()
+        out.append(b.done())
+    return out
+
+
+def c14_long(tier, rng, fam='C14'):
+    """long self-driving histories, slim trace"""
+    if tier == 'quick':
+        return [dict(fam=fam, tag='history of 1250 RPCs, 32 at a time, seed %d' % s, runner='history', n=1250, par=32,
+                     seed=rng.randrange(1 << 30), steps=[dict(op='history')]) for s in range(8)]
+    return [dict(fam=fam, tag='history of 62500 RPCs, 32 at a time, seed %d' % s, runner='history', n=62500, par=32,
+                 seed=rng.randrange(1 << 30), steps=[dict(op='history')]) for s in range(16)]
+
+
+def c05_long(tier, rng, fam='C05'):
+    n = 1250 if tier == 'quick' else 6250
+    return [dict(fam=fam, tag='id allocation over a history of %d RPCs, seed %d' % (n, s), runner='history', n=n, par=64,
+                 seed=rng.randrange(1 << 30), steps=[dict(op='history')]) for s in range(8 if tier == 'quick' else 16)]
+
+
+# ------------------------------------------------------------------ C06 -----
+
+def c06(tier, rng, fam='C06'):
+    """every wire history produced by the program families of C01-C04, C07 and C11 is judged
+    per id and direction by the wire-protocol rules (rule group 'wire')"""
+    from . import gen
+    out = []
+    sub = 'quick'
+    fams = [gen.c01, gen.c02, gen.c03, c07, c11]
+    if hasattr(gen, 'c04'):
+        fams.append(gen.c04)
+    for g in fams:
+        ss = g(sub if tier == 'quick' else tier, rng)
+        if tier == 'quick' and len(ss) > 150:
+            ss = rng.sample(ss, 150)
+        for s in ss:
+            s['ofam'] = s['fam']
+            s['fam'] = fam
+            out.append(s)
+    return out
